@@ -30,6 +30,10 @@ type c03Scenario struct {
 	ReqDs    []time.Duration `json:"req_delays"`
 	ProbeIv  time.Duration   `json:"probe_interval"`
 	Buf      string          `json:"buffering"` // "" | req | resp | both: the service buffers requests and/or responses
+	// ShortTT: the target timeout (time allowed for the response *headers*) is a fifth of the drain
+	// timeout, and every in-flight request has its headers already and streams its body until its
+	// natural finish: the drain timeout, not the target timeout, is what such a request is owed.
+	ShortTT bool `json:"short_target_timeout"`
 }
 
 func c03Gen(rng *rand.Rand, idx int) c03Scenario {
@@ -54,9 +58,21 @@ func c03Gen(rng *rand.Rand, idx int) c03Scenario {
 	if sc.Sick {
 		sc.ProbeIv = 300 * time.Millisecond
 	}
+	if !sc.Sick && idx%5 == 3 {
+		sc.ShortTT = true
+		if sc.DrainTO < time.Second {
+			sc.DrainTO = 1500 * time.Millisecond
+		}
+	}
 	n := rng.IntN(7)
+	if sc.ShortTT {
+		n = 2 + n%4
+	}
 	for i := 0; i < n; i++ {
 		k := pick(rng, []string{"early", "early", "early-stream", "early-refused", "late", "never", "edge-", "edge+", "edge0", "upgrade"})
+		if sc.ShortTT && k != "upgrade" {
+			k = "early-stream"
+		}
 		f := c03Inflight{Kind: k}
 		d := sc.DrainTO
 		switch k {
@@ -89,7 +105,7 @@ func (sc c03Scenario) class() string {
 	if len(ks) == 0 && !sc.Placed {
 		return ""
 	}
-	return fmt.Sprintf("%s|nt%d|ro%v|drain%v|%s|placed=%v|sick=%v|buf=%s", sc.Cmd, sc.NT, sc.Rollout, sc.DrainTO, strings.Join(ks, ","), sc.Placed, sc.Sick, sc.Buf)
+	return fmt.Sprintf("%s|nt%d|ro%v|drain%v|%s|placed=%v|sick=%v|buf=%s|stt=%v", sc.Cmd, sc.NT, sc.Rollout, sc.DrainTO, strings.Join(ks, ","), sc.Placed, sc.Sick, sc.Buf, sc.ShortTT)
 }
 
 // c03Span: requests held by a pause (and requests stalled between route lookup and claim) while
@@ -380,6 +396,9 @@ func c03Run(t *testing.T, run *Run, sc c03Scenario) {
 	to := DefTO
 	to.HealthCheckConfig.Interval = sc.ProbeIv
 	to.ResponseTimeout = 5 * time.Minute // the target timeout must not pre-empt the drain deadline
+	if sc.ShortTT {
+		to.ResponseTimeout = sc.DrainTO / 5
+	}
 	to.BufferRequests = sc.Buf == "req" || sc.Buf == "both"
 	to.BufferResponses = sc.Buf == "resp" || sc.Buf == "both"
 	const svc = "svc"
